@@ -368,6 +368,17 @@ pub fn t_try_iter(x: u32, y: u32) -> u64 {
     u64::from(r.is_err()) + u64::from(s.unwrap_or(77)) * 2 + m * 1_000_000_000_000 + u64::from(t % 1000) * 5 + u
 }
 
+pub fn t_collect_try(x: u32, y: u32) -> u64 {
+    let a = bytes(x, y);
+    let r: Result<Vec<u8>, u32> = a.iter().map(|b| if *b == 0xee { Err(u32::from(*b)) } else { Ok(*b >> 1) }).collect();
+    let o: Option<Vec<u8>> = a.iter().map(|b| b.checked_sub(3)).collect();
+    let s: Result<String, ()> = a.iter().map(|b| if *b < 0x80 { Ok(char::from(b'a' + (*b % 26))) } else { Err(()) }).collect();
+    let rs = r.map_or_else(u64::from, |v| v.iter().map(|e| u64::from(*e)).sum());
+    let os = o.map_or(5, |v| v.len() as u64 + u64::from(v[0]));
+    let ss = s.map_or(9, |t| t.len() as u64 * 7 + t.chars().map(|c| c as u64).sum::<u64>());
+    rs + os * 10_000 + ss * 100_000_000
+}
+
 pub const NAMES: &[(&str, fn(u32, u32) -> u64)] = &[
     ("t_fold", t_fold),
     ("t_skip_while_take", t_skip_while_take),
@@ -406,4 +417,5 @@ pub const NAMES: &[(&str, fn(u32, u32) -> u64)] = &[
     ("t_question_mark", t_question_mark),
     ("t_btreemap", t_btreemap),
     ("t_try_iter", t_try_iter),
+    ("t_collect_try", t_collect_try),
 ];
